@@ -305,7 +305,7 @@ Example histories_c01_outputs : snd (run (init_realm SubEx.cfg0) SubEx.ops0) =
       (10, REvent 2 10 [("topic", vuri t_sub_on_unsubscribe)] [vid 11; vid 1] [])];
      [(10, REvent 1 11 [] [vnat 2] [])];
      [];
-     [(12, RPublished 7 15)]].
+     [(12, RPublished 7 17)]].
 Proof. exact SubEx.outs. Qed.
 
 Example histories_c01_pattern : exists pre post,
@@ -331,7 +331,7 @@ Example histories_c01_publish_hypotheses_satisfiable :
 Proof. exact SubEx.publish_hyps. Qed.
 
 (** (c): the ids of the history *)
-Example histories_c01_pubids : pubids (tr_outs (trace SubEx.cfg0 SubEx.ops0)) = [9; 9; 9; 10; 11; 15].
+Example histories_c01_pubids : pubids (tr_outs (trace SubEx.cfg0 SubEx.ops0)) = [9; 9; 9; 10; 11; 17].
 Proof. exact SubEx.ids. Qed.
 
 (** in the refuting history it is [gate_unsub_id] that fails *)
